@@ -120,7 +120,7 @@ def entries() -> List[Dict[str, Any]]:
     ]:
         cls = rw.split("(")[0].replace("R.", "")
         out.append(dict(name=f"shared-reward-{cls}", family=fam, shared={}, gen=rw, env_a=env_a, env_b=env_b,
-                        share="generator", quick=fam not in ("connector", "sokoban", "flat_pack", "sliding_tile_puzzle")))
+                        share="generator", quick=fam not in ("connector", "sokoban", "sliding_tile_puzzle")))
     # caller-owned database handed to two generators (and hence two environments)
     out.append(dict(name="shared-sudoku.DatabaseGenerator-database", family="sudoku",
                     shared={"DB": "INJ.sudoku_boards_int32()"}, gen="G.sudoku.DatabaseGenerator(DB)",
@@ -252,9 +252,9 @@ def check_entry(entry: Dict[str, Any], tier: str, seed: int, model: str = "") ->
     n_calls = 0
     # slow-eager families (static table): the four-call alphabet without the second step of a and the step of b
     # quick tier: the six-call alphabet only where the second environment's step matters (shared reward functions,
-    # shared argument arrays) and the family is cheap to run eagerly; otherwise the four-call alphabet
+    # shared argument arrays); otherwise the four-call alphabet
     wide = e["name"].startswith("shared-reward") or e["share"] == "arguments"
-    calls = CALLS if (tier == "thorough" or (wide and e["family"] not in SLOW_HISTORY)) else CALLS[:4]
+    calls = CALLS if (tier == "thorough" or wide) else CALLS[:4]
     seqs = list(itertools.product(calls, repeat=L))
     for seq in seqs:
         n, bad = run_history(e, seq, exp, args)
